@@ -54,7 +54,7 @@ type outInfo struct {
 
 type ptxInfo struct {
 	PoolTx
-	firstAdd int // event index of the earliest successful submission
+	adds []int // event indices of the successful submissions containing it
 }
 
 type analysis struct {
@@ -139,7 +139,7 @@ func (a *analysis) index() {
 			for _, t := range e.Txs {
 				p := a.ptx[t.ID]
 				if p == nil {
-					p = &ptxInfo{PoolTx: t, firstAdd: i}
+					p = &ptxInfo{PoolTx: t}
 					a.ptx[t.ID] = p
 					for _, id := range t.Spends {
 						a.spenders[id] = append(a.spenders[id], t.ID)
@@ -151,9 +151,10 @@ func (a *analysis) index() {
 						}
 						o.creators = append(o.creators, t.ID)
 					}
-				} else if e.Ret < a.ev[p.firstAdd].Ret {
-					p.firstAdd = i
 				}
+				// the same transaction can be handed in again (as a parent,
+				// or rebuilt identically after a restart dropped it)
+				p.adds = append(p.adds, i)
 			}
 		}
 	}
@@ -168,28 +169,32 @@ func (a *analysis) index() {
 }
 
 // surelyPooled reports whether transaction t was in the pool during the whole
-// interval [c, r]: it had been added before c and every block/restart that
-// could have removed it before r left it in the pool. Transactions never
-// re-enter the pool in these workloads (no reorgs, nobody resubmits).
+// interval [c, r]: some submission of it had returned before c and every
+// block/restart from that submission on that could have removed it before r
+// left it in the pool.
 func (a *analysis) surelyPooled(t types.TransactionID, c, r int64) bool {
 	p := a.ptx[t]
 	if p == nil {
 		return false
 	}
-	add := &a.ev[p.firstAdd]
-	if add.Ret >= c {
-		return false
-	}
-	for k, i := range a.changes {
-		e := &a.ev[i]
-		if e.Ret < add.Call || e.Call > r {
+next:
+	for _, ai := range p.adds {
+		add := &a.ev[ai]
+		if add.Ret >= c {
 			continue
 		}
-		if !a.inPool[k][t] {
-			return false
+		for k, i := range a.changes {
+			e := &a.ev[i]
+			if e.Ret < add.Call || e.Call > r {
+				continue
+			}
+			if !a.inPool[k][t] {
+				continue next
+			}
 		}
+		return true
 	}
-	return true
+	return false
 }
 
 // possiblyPooled reports whether transaction t may have been in the pool at
@@ -199,17 +204,21 @@ func (a *analysis) possiblyPooled(t types.TransactionID, c, r int64) bool {
 	if p == nil {
 		return false
 	}
-	add := &a.ev[p.firstAdd]
-	if add.Call > r {
-		return false
-	}
-	for k, i := range a.changes {
-		e := &a.ev[i]
-		if e.Call > add.Ret && e.Ret < c && !a.inPool[k][t] {
-			return false // it had left the pool before the call started
+next:
+	for _, ai := range p.adds {
+		add := &a.ev[ai]
+		if add.Call > r {
+			continue
 		}
+		for k, i := range a.changes {
+			e := &a.ev[i]
+			if e.Call > add.Ret && e.Ret < c && !a.inPool[k][t] {
+				continue next // it had left the pool again before the call started
+			}
+		}
+		return true
 	}
-	return true
+	return false
 }
 
 // matureBy reports whether a block of height >= m may have reached the wallet
